@@ -141,6 +141,30 @@ class Ctx(object):
             if r.status == "error":
                 self.errors.append("%s: %s" % (u.name, r.msg))
             elif r.status == "undecided":
+                # The unit is out of the verifier's reach on this tree (restructured code, missing contract).
+                # Bounded stand-in: the executable contract on the real function; a failing input is a violation
+                # (confirmed on the real code, labelled bounded); otherwise the verdict stays undecided.
+                found = None
+                mon = monitors.get(u.name)
+                if mon is not None:
+                    try:
+                        res = self.monitor(mon[0], "search", (mon[3] if len(mon) > 3 else 60000), self.seed, "null")
+                        self.bounded.append({"unit": u.name, "monitor": mon[0], "reason": "unit undecided: " + r.msg[:200],
+                                             "inputs_tried": res.get("tried"), "violation": res.get("violation")})
+                        if res.get("violation"):
+                            found = res
+                    except Exception as e:
+                        self.bounded.append({"unit": u.name, "monitor": mon[0], "error": str(e)[:300]})
+                if found:
+                    ident = "bounded/%s/%s" % (u.name, mon[0])
+                    k = self.known_open(ident + ":" + str(found["violation"]))
+                    if k is not None:
+                        self.report_known(k)
+                    else:
+                        self.violation(ident, {"unit": u.name, "target": u.target, "inputs": found["inputs"],
+                                               "observed": found["violation"],
+                                               "note": "unit could not be verified on this tree (%s); violation found by the "
+                                                       "bounded run-time contract on the real function" % r.msg[:300]}, True)
                 self.undecided.append("%s: %s" % (u.name, r.msg))
             # one report per obligation site (same unit, kind, line, clause): the paths reaching it are listed in it
             sites = {}
@@ -245,6 +269,8 @@ class Ctx(object):
         path = os.path.join(HERE, "evidence", "%s.json" % self.prop)
         json.dump(ev, open(path + ".tmp", "w"), indent=1, default=str)
         os.replace(path + ".tmp", path)
+        for e in self.undecided:
+            print("UNDECIDED %s %s" % (self.prop, e[:1000]))
         if self.errors:
             for e in self.errors:
                 print("CHECKER-ERROR %s %s" % (self.prop, e[:2000]))
@@ -252,8 +278,6 @@ class Ctx(object):
         elif self.violations:
             code = 1
         elif self.undecided:
-            for e in self.undecided:
-                print("UNDECIDED %s %s" % (self.prop, e[:1000]))
             code = 2
         else:
             code = 0
